@@ -71,7 +71,7 @@ def run(ck):
         ck.transitions += r.generated
         if tok and clr:
             for a, (tk, gn) in r.coverage.items():
-                ck.cov["Svc." + a] = ck.cov.get("Svc." + a, 0) + tk
+                ck.cov["Svc." + a] = ck.cov.get("Svc." + a, 0) + gn
             ck.note("TimerService.tla: %s" % r.summary())
             if r.violated:
                 rp = ck.save_replay("svc_model", {"tlc.out": r.out})
